@@ -12,7 +12,8 @@
    Theorems (ALL sizes accepted by the constructors, EVERY bit vector of syndrome length, EVERY iteration order of
    the Python set of flagged plaquettes, EVERY coset choice): the returned operator has exactly the given syndrome.
      planar_sample_syndrome_all, planar_mps_decode_syndrome_all          (rows, cols >= 2)
-     rotplanar_sample_syndrome_all, rotplanar_mps_decode_syndrome_all    (rows, cols >= 3) *)
+     rotplanar_sample_syndrome_all, rotplanar_mps_decode_syndrome_all    (rows, cols >= 3)
+   The colour-code decoder's construction is in Decoders/SampleRecoveryColor.v. *)
 From Coq Require Import ZArith List Bool Lia ZifyBool Permutation.
 From QV Require Import Core.Bits Core.Pauli Core.Symp Core.Code App.RunOnce Generated.LatticeArith
   Lattice.Planar Lattice.PlanarAll Decoders.Checker Decoders.MwpmRel Decoders.PlanarMwpm
@@ -618,11 +619,8 @@ Proof.
   - now apply Permutation_map.
 Qed.
 
-(* not modelled here: Color666MPSDecoder.sample_recovery (color/_color666mpsdecoder.py) — it is covered by the
-   differential check of harness/c02.py only *)
-Definition color666_sample_syndrome_statement : Prop :=
-  forall (sample : Z -> bsf -> bsf) (stabs_of : Z -> list bsf) size, 3 <= size -> Z.odd size = true ->
-    forall syn, length syn = length (stabs_of size) -> syndrome_of (stabs_of size) (sample size syn) = syn.
+(* Color666MPSDecoder.sample_recovery / decode: Decoders/SampleRecoveryColor.v (color_sample_syndrome_all,
+   color_mps_decode_syndrome_all) *)
 
 (* ---- non-vacuity: closed instances, all syndromes of small lattices, all four cosets ---- *)
 Fixpoint all_bits (k : nat) : list bsf :=
